@@ -105,7 +105,9 @@ fn const_json<'tcx>(tcx: TyCtxt<'tcx>, env: TypingEnv<'tcx>, c: &Const<'tcx>) ->
     }
     if let Const::Unevaluated(u, _) = c {
         let v = c.try_eval_scalar_int(tcx, env).map(|s| s.to_bits_unchecked().to_string());
-        return format!("{{\"k\":\"constref\",\"def\":{},\"ty\":{},\"v\":{}}}", esc(&tcx.def_path_str(u.def)), esc(&t.to_string()), match v { Some(v) => esc(&v), None => "null".into() });
+        let mut name = tcx.def_path_str(u.def);
+        if let Some(p) = u.promoted { name = format!("{}::promoted[{}]", name, p.as_u32()); }
+        return format!("{{\"k\":\"constref\",\"def\":{},\"ty\":{},\"v\":{}}}", esc(&name), esc(&t.to_string()), match v { Some(v) => esc(&v), None => "null".into() });
     }
     if let Some(s) = c.try_eval_scalar_int(tcx, env) {
         let bits = s.to_bits_unchecked();
@@ -209,13 +211,19 @@ fn fn_bounds_json<'tcx>(tcx: TyCtxt<'tcx>, did: DefId) -> String {
 
 fn body_json<'tcx>(tcx: TyCtxt<'tcx>, did: DefId, kind: DefKind) -> String {
     let body = if matches!(kind, DefKind::Const { .. } | DefKind::AssocConst { .. }) { tcx.mir_for_ctfe(did) } else { tcx.optimized_mir(did) };
+    body_json_of(tcx, did, kind, body, None)
+}
+
+fn body_json_of<'tcx>(tcx: TyCtxt<'tcx>, did: DefId, kind: DefKind, body: &Body<'tcx>, promoted: Option<u32>) -> String {
     let env = TypingEnv::post_analysis(tcx, did);
     let sm = tcx.sess.source_map();
     let mut s = String::new();
     let span = tcx.def_span(did);
     let lo = sm.lookup_char_pos(span.lo());
     let hi = sm.lookup_char_pos(body.span.hi());
-    let _ = write!(s, "{{\"name\":{},\"kind\":{},\"file\":{},\"line\":{},\"end\":{},\"argc\":{}", esc(&tcx.def_path_str(did)), esc(&format!("{:?}", kind)), esc(&lo.file.name.prefer_local_unconditionally().to_string()), lo.line, hi.line, body.arg_count);
+    let (bname, bkind) = match promoted { Some(p) => (format!("{}::promoted[{}]", tcx.def_path_str(did), p), "Const-promoted".to_string()), None => (tcx.def_path_str(did), format!("{:?}", kind)) };
+    let kind = if promoted.is_some() { DefKind::AnonConst } else { kind };
+    let _ = write!(s, "{{\"name\":{},\"kind\":{},\"file\":{},\"line\":{},\"end\":{},\"argc\":{}", esc(&bname), esc(&bkind), esc(&lo.file.name.prefer_local_unconditionally().to_string()), lo.line, hi.line, body.arg_count);
     if kind == DefKind::Closure {
         let _ = write!(s, ",\"parent\":{}", esc(&tcx.def_path_str(tcx.parent(did))));
         let caps: Vec<String> = tcx.closure_captures(did.expect_local()).iter().map(|c| esc(&c.to_string(tcx))).collect();
@@ -350,6 +358,12 @@ impl rustc_driver::Callbacks for Cb {
             if !first { out.push(','); }
             first = false;
             out.push_str(&body_json(tcx, did, kind));
+            if matches!(kind, DefKind::Fn | DefKind::AssocFn | DefKind::Closure) {
+                for (pi, pbody) in tcx.promoted_mir(did).iter_enumerated() {
+                    out.push(',');
+                    out.push_str(&body_json_of(tcx, did, kind, pbody, Some(pi.as_u32())));
+                }
+            }
         }
         out.push_str("],\"impls\":[");
         let mut first = true;
